@@ -431,7 +431,7 @@ def run(chk, tier):
         if rnd == 0:
             corrupted_event_guard(chk, wdir)
             os.rename(os.path.join(wdir, "tr-r0-7.ndjson"), os.path.join(wdir, "keep-r0-7.ndjson"))
-            fut_drift = pool.submit(model_drift, wdir, os.path.join(wdir, "keep-r0-7.ndjson"), 1200 if quick else 12000)
+            fut_drift = pool.submit(model_drift, wdir, os.path.join(wdir, "keep-r0-7.ndjson"), 400 if quick else 8000)
         for rx in (32, 7):
             for f in ("tr-r%d-%d.ndjson" % (rnd, rx), "wl-r%d-%d.txt" % (rnd, rx)):
                 if os.path.exists(os.path.join(wdir, f)):
